@@ -280,6 +280,7 @@ func runPropertyCheck(e *Engine, prop, tier string, seed int, t0 time.Time) int 
 		"known_findings_matched":   known,
 		"samples":                  samples,
 		"slowest":                  slowOut,
+		"retried_after_timeout":    retriedNames(rs.obls),
 		"contract_files":           e.cs.Files,
 		"spec_files":               e.spec.files,
 	}
@@ -466,4 +467,17 @@ func (e *Engine) contractEffects(keys []string) []ExtraResult {
 		obs = append(obs, ef.obWritesOnly(k, allowed), ef.obNoGlobalWrites(k))
 	}
 	return effExtras(obs)
+}
+
+
+// retriedNames: obligations that were undecided at the first attempt (solver limit under load) and were decided at
+// the second, longer one; reported so that creeping slowness is visible in the evidence
+func retriedNames(obls []*Obligation) []string {
+	out := []string{}
+	for _, o := range obls {
+		if o.Retried {
+			out = append(out, fmt.Sprintf("%s (%s after retry)", o.Name, o.Status))
+		}
+	}
+	return out
 }
